@@ -142,6 +142,7 @@ func rulesC03(c *Ctx) {
 	// nodes an operation holds are now protected by the in-use record, their LRU position is a matter of efficiency only,
 	// and a change that drops the refresh no longer breaks the property — seed C03/5 is NEUTRALISED.)
 	c03EvictRepaired(c)
+	c03Round4(c)
 	childNodeReadRule(c, "C03.evict")
 
 	// ---- (b) transaction-context discipline
